@@ -24,17 +24,19 @@ def fl(*pairs):
 # ------------------------------------------------------------------ scripted prefixes
 
 def boot(rf, leader=0, others=(), revs=None, fs_start=None):
-    """register a quorum, start from the leader, add + verify the others: all RW"""
+    """register a quorum (the leader first, then the others, then further addresses up to the quorum),
+    start from the leader, add + verify the others: all RW"""
     revs = revs or {}
     es = []
     need = rf // 2 + 1
     regs = [leader] + [o for o in others]
-    k = 0
-    for a in regs:
+    x = 0
+    while len(regs) < need:
+        if x not in regs:
+            regs.append(x)
+        x += 1
+    for a in regs[:max(need, 1)]:
         es.append(ev("register", a=a, uuid=a + 1, rev=revs.get(a, 1)))
-        k += 1
-        if k >= need:
-            break
     es.append(ev("start", addrs=[leader], fs=fs_start or []))
     for o in others:
         es += add(o)
@@ -62,6 +64,9 @@ class Gen:
         self.rng = rng
         self.wid = 0
         self.snap = 0
+        # one fixed (revision count, rebuilding) assignment per replica for the whole history
+        self.revs = [rng.randint(1, 5) for _ in range(8)]
+        self.rebs = [rng.random() < 0.15 for _ in range(8)]
 
     def write(self, fs=None, off=None, ln=4096):
         self.wid += 1
@@ -113,7 +118,7 @@ class Gen:
             return ev("resize", size=rng.choice([SIZE, SIZE * 2, SIZE // 2, SIZE * 4]),
                       fs=self.io_faults(allr, 0.15, ("resize",)))
         if x < 0.98:
-            return ev("register", a=a, uuid=a + 1, rev=rng.randint(1, 5), reb=rng.random() < 0.15)
+            return ev("register", a=a, uuid=a + 1, rev=self.revs[a], reb=self.rebs[a])
         return ev("start", addrs=[a])
 
     def history(self, rf, n, length):
@@ -132,6 +137,7 @@ def bootstrap_history(rng, rf, n):
     failures, starts by leaders and non-leaders"""
     es = []
     revs = [rng.randint(1, 3) for _ in range(n)]
+    rebs = [rng.random() < 0.2 for _ in range(n)]
     for _ in range(rng.randint(2, 7)):
         a = rng.randrange(n)
         x = rng.random()
@@ -142,7 +148,7 @@ def bootstrap_history(rng, rf, n):
             if rng.random() < 0.08:
                 fs.append(dict(a=rng.randrange(n), k="alive"))
             es.append(ev("register", a=a, uuid=(a + 1) if rng.random() < 0.9 else rng.randint(1, n), rev=revs[a],
-                         reb=rng.random() < 0.2, fs=fs))
+                         reb=rebs[a], fs=fs))
         elif x < 0.92:
             es.append(ev("start", addrs=[a], fs=fl(*[(b, "create") for b in range(n) if rng.random() < 0.05])))
         else:
@@ -169,7 +175,12 @@ def ev_term(e, ob=None):
     k = e["k"]
     fs = fs_term(e.get("fs"))
     if k == "register":
-        return "Register %s %s %s %s %s" % (n(e["a"]), n(e.get("uuid", 0)), z(e.get("rev", 0)), "true" if e.get("reb") else "false", fs)
+        # the leader among equally good candidates depends on Go's map order: taken from the observation
+        pick = -1
+        if ob:
+            starts = [a for a, st in (ob["signals"] or []) if st]
+            pick = starts[-1] if starts else ob["maxrev"]
+        return "Register %s %s %s %s %s %s" % (n(e["a"]), n(e.get("uuid", 0)), z(e.get("rev", 0)), "true" if e.get("reb") else "false", onat(pick, -1), fs)
     if k == "start":
         return "Start %s %s" % (lnat(e.get("addrs", [])), fs)
     if k == "addcheck":
@@ -241,7 +252,8 @@ def world_term(wl):
 def case_term(c, out):
     evs = "; ".join(ev_term(e, o) for e, o in zip(c["events"], out["obs"]))
     obs = "; ".join(obs_term(o) for o in out["obs"])
-    return "mkcase %s %s %s [%s] [%s]" % (n(c["rf"]), n(len(c["world"])), world_term(c["world"]), evs, obs)
+    quiet = "; ".join("true" if o.get("pending", 0) == 0 else "false" for o in out["obs"])
+    return "mkxcase (mkcase %s %s %s [%s] [%s]) [%s]" % (n(c["rf"]), n(len(c["world"])), world_term(c["world"]), evs, obs, quiet)
 
 
 def run_cases(ctx, binpath, cases, tag="ctl", queries=None, workers=12):
@@ -255,6 +267,97 @@ def run_cases(ctx, binpath, cases, tag="ctl", queries=None, workers=12):
         if o.get("err"):
             raise RuntimeError("harness error on case %d: %s" % (c["id"], o["err"]))
         terms.append(case_term(c, o))
-    queries = queries or (lambda l: ["bad_cases 0 %s" % l, "coverage %s" % l])
+    queries = queries or (lambda l: ["bad_cases 0%%nat %s" % l, "coverage %s" % l])
     res = vlib.coq_eval_sharded(ctx, tag, ["Ctl.Model", "Ctl.Corr", "Ctl.Oracles"], terms, queries, shard=150)
     return res, outs
+
+
+ORACLES = ["C02", "C03", "C04", "C05", "C09", "C13", "C18"]
+
+
+def parse_bad(res):
+    """-> list of dict(case, step, field, fails={pid: step or None})"""
+    bad, cov = [], {}
+    for off, vals in res:
+        for item in vlib.parse_coq_list(vals[0]):
+            ci, d, fl = item
+            bad.append(dict(case=off + ci, step=d[0], field=d[1],
+                            fails={p: (v - 1) for p, v in zip(ORACLES, fl) if v}))
+        if len(vals) > 1:
+            for i, v in enumerate(vlib.parse_coq_list(vals[1])):
+                cov[off + i] = v
+    return bad, cov
+
+
+# ------------------------------------------------------------------ targeted scenarios (corpus)
+
+def scenarios():
+    """named histories aimed at specific code paths (each is also run with every prefix of faults)"""
+    S = []
+    # snapshot failing on two of three replicas, then a write before the monitor goroutines run (F4)
+    S.append(("snap-fail-2of3-then-write", 3, 3,
+              boot(3, 0, [1, 2]) + [ev("snapshot", name=1, fs=fl((1, "snap"), (2, "snap"))),
+                                    ev("write", wid=1, off=0, len=4096), ev("monfire", a=1), ev("monfire", a=2),
+                                    ev("write", wid=2, off=0, len=4096)]))
+    # administrative mode override (S2)
+    S.append(("setmode-rw-on-wo", 2, 2,
+              boot(2, 0, []) + add(1, verify=False) + [ev("write", wid=1, off=0, len=4096), ev("setmode", a=1, mode="RW"),
+                                                       ev("write", wid=2, off=0, len=4096), ev("read", off=0, len=4096)]))
+    S.append(("setmode-err-then-io", 3, 3,
+              boot(3, 0, [1, 2]) + [ev("setmode", a=1, mode="ERR"), ev("setmode", a=2, mode="ERR"),
+                                    ev("write", wid=1, off=0, len=4096), ev("monfire", a=1), ev("monfire", a=2),
+                                    ev("write", wid=2, off=0, len=4096)]))
+    # two adds admitted before either is committed (replication factor overshoot)
+    S.append(("double-admission", 2, 3,
+              boot(2, 0, []) + [ev("addcheck", a=1), ev("addcheck", a=2), ev("addcommit", a=1), ev("verify", a=1),
+                                ev("addcommit", a=2), ev("verify", a=2), ev("write", wid=1, off=0, len=4096),
+                                ev("snapshot", name=1)]))
+    # election shapes (F3)
+    S.append(("elect-rebuilding-registrant", 5, 3,
+              [ev("register", a=0, uuid=1, rev=10), ev("register", a=1, uuid=2, rev=20, reb=True),
+               ev("register", a=2, uuid=3, rev=5), ev("start", addrs=[2]), ev("start", addrs=[0])]))
+    S.append(("elect-after-signal-failure", 3, 3,
+              [ev("register", a=1, uuid=2, rev=7), ev("register", a=0, uuid=1, rev=10, fs=fl((0, "signal"))),
+               ev("register", a=2, uuid=3, rev=3), ev("start", addrs=[2]), ev("start", addrs=[1])]))
+    S.append(("elect-lower-then-higher", 3, 3,
+              [ev("register", a=0, uuid=1, rev=3), ev("register", a=1, uuid=2, rev=9), ev("start", addrs=[0]),
+               ev("start", addrs=[1])]))
+    # write fault patterns around the majority boundary
+    for rf in (1, 2, 3, 4, 5):
+        others = list(range(1, rf))
+        for k in range(0, rf + 1):
+            fs = fl(*[(a, "write" if a % 2 else "writeap") for a in range(k)])
+            S.append(("write-%d-of-%d-fail" % (k, rf), rf, rf,
+                      boot(rf, 0, others) + [ev("write", wid=1, off=0, len=4096, fs=fs), ev("read", off=0, len=4096),
+                                             ev("write", wid=2, off=4096, len=4096)]))
+    # reads with fail-over
+    S.append(("read-failover", 3, 3,
+              boot(3, 0, [1, 2]) + [ev("read", off=0, len=4096, fs=fl((0, "read"), (1, "read"))),
+                                    ev("read", off=0, len=4096), ev("read", off=0, len=4096, fs=fl((2, "read")))]))
+    S.append(("read-only-wo", 2, 2, boot(2, 0, []) + add(1, verify=False) + [ev("monfail", a=0), ev("read", off=0, len=4096)]))
+    # range checks
+    S.append(("range", 1, 1, boot(1, 0, []) + [ev("write", wid=1, off=SIZE - 4096, len=4096), ev("write", wid=2, off=SIZE - 4095, len=4096),
+                                               ev("write", wid=3, off=-4096, len=4096), ev("write", wid=4, off=SIZE, len=4096),
+                                               ev("read", off=SIZE, len=4096), ev("read", off=-1, len=4096),
+                                               ev("read", off=SIZE - 4096, len=4096)]))
+    # checkpoint life cycle
+    S.append(("checkpoint-cycle", 3, 3,
+              boot(3, 0, [1, 2]) + [ev("snapshot", name=1), ev("write", wid=1, off=0, len=4096, fs=fl((2, "write"))),
+                                    ev("addcheck", a=2), ev("addcommit", a=2), ev("verify", a=2), ev("snapshot", name=2),
+                                    ev("remove", a=1), ev("snapshot", name=3)]))
+    S.append(("checkpoint-store-fails", 2, 2,
+              boot(2, 0, []) + [ev("addcheck", a=1), ev("addcommit", a=1), ev("verify", a=1, fs=fl((0, "setcp")))]))
+    # rebuild chain verification
+    S.append(("verify-chain-mismatch", 2, 2,
+              dict(world=world(2, chains={1: [77]}), events=boot(2, 0, []) + [ev("addcheck", a=1), ev("addcommit", a=1), ev("verify", a=1)])))
+    # resize
+    S.append(("resize", 2, 2, boot(2, 0, [1]) + [ev("resize", size=SIZE), ev("resize", size=SIZE // 2), ev("resize", size=2 * SIZE, fs=fl((1, "resize"))),
+                                                  ev("write", wid=1, off=SIZE, len=4096), ev("monfire", a=1), ev("resize", size=4 * SIZE)]))
+    out = []
+    for item in S:
+        name, rf, nrep, es = item
+        if isinstance(es, dict):
+            out.append(dict(name=name, rf=rf, world=es["world"], events=es["events"]))
+        else:
+            out.append(dict(name=name, rf=rf, world=world(nrep), events=es))
+    return out
